@@ -126,9 +126,9 @@ def other_losses(rep: Report, rng: random.Random, thorough: bool):
     from flowjax.bijections import RationalQuadraticSpline
     from flowjax.train.losses import ElboLoss, MaximumLikelihoodLoss
     from harness import c03
-    for i in range(10 if thorough else 4):
+    for i in range(12 if thorough else 6):
         rs = np.random.default_rng(rng.randrange(2**31))
-        cond = [None, 2][i % 2]
+        cond = [None, None, 2][i % 3]
         dim = 2 + i % 2
         kind = i % 3
         k = jr.PRNGKey(int(rs.integers(2**31)))
@@ -156,7 +156,9 @@ def other_losses(rep: Report, rng: random.Random, thorough: bool):
             rep.violation({"loss": "MaximumLikelihoodLoss", "model": name, "error": type(e).__name__}, f"{type(e).__name__}: {str(e)[:200]}")
         if cond is not None:
             continue
-        target = ds.Normal(jnp.ones(dim) * 0.3, 1.5).log_prob
+        # "the negative of the potential function, evaluated for a single point": every other case uses a target that
+        # is NOT batch-safe (it sums over everything it is given), so a loss that calls it on the whole batch is exposed
+        target = ds.Normal(jnp.ones(dim) * 0.3, 1.5).log_prob if i % 2 else (lambda xx: -0.5 * jnp.sum((xx - 0.3) ** 2) / 2.25)
         n = 40
         try:
             e1 = float(ElboLoss(target, n)(params, static, k))
